@@ -4,6 +4,7 @@
 import Yld.Proofs.Store
 import Yld.Proofs.StoreShape
 import Yld.Proofs.RetractAllSpec
+import Yld.Proofs.LogicStore
 namespace Yld.C07
 
 /-- assertz appends: the facts of name/arity afterwards are the old ones followed by the new
@@ -137,5 +138,30 @@ theorem retractall_survivors_in_order {b : Bind} {args : List Term} {acyc : Prop
   | _, _, _, .nil _ => .slnil
   | _, _, _, .drop _ _ _ _ _ rest => .cons _ (retractall_survivors_in_order rest)
   | _, _, _, .keep _ _ _ _ _ rest => .cons₂ _ (retractall_survivors_in_order rest)
+
+/-! ### The store and the logical reading of program + facts (`HoldsF`, Yld/Proofs/LogicFacts.lean) -/
+
+/-- More facts, more consequences: the reading is monotone in the store. -/
+theorem more_facts_more_consequences (preds : List Pred) (db db' : List ((String × Nat) × List Fact)) (hle : DbLe db db')
+    (name : String) (args : List Term) (h : HoldsF db preds name args) : HoldsF db' preds name args :=
+  holdsF_mono preds db db' hle name args h
+
+/-- After `assert_fact` / asserta / assertz the store is closed again, nothing that followed before is lost, the
+    bindings are untouched, and every instance of the asserted term (as resolved at that moment) follows. -/
+theorem assert_adds_exactly_its_fact_to_the_consequences (preds : List Pred) (f : Nat) (name : String) (values vs : List Term)
+    (app : Bool) (w : World) (hcl : DbClosed w.db) (hres : values.mapM (resolve w.b f) = some vs) :
+    (assertFact f name values app w).2 = none ∧
+    DbClosed (assertFact f name values app w).1.db ∧
+    DbLe w.db (assertFact f name values app w).1.db ∧
+    (assertFact f name values app w).1.b = w.b ∧
+    ∀ τ : Nat → Term, HoldsF (assertFact f name values app w).1.db preds name ((canonVars vs).1.map (Term.subst τ)) :=
+  assert_adds_a_consequence preds f name values vs app w hcl hres
+
+/-- What retract and retractall do — keep a sublist of one predicate's facts — can only remove consequences. -/
+theorem retracting_removes_only (preds : List Pred) (w : World) (name : String) (arity : Nat) (keep : List Fact)
+    (hsub : ∀ c ∈ keep, c ∈ w.facts name arity) :
+    DbLe (w.setFacts name arity keep).db w.db ∧
+    ∀ n a, HoldsF (w.setFacts name arity keep).db preds n a → HoldsF w.db preds n a :=
+  setFacts_sublist_removes_only preds w name arity keep hsub
 
 end Yld.C07
